@@ -1081,6 +1081,20 @@ def units(tier, seed):
     us.append(Unit("through flood_fill_aplx: three fills, one controller",
                    h_two_fills, dict(free_bits=1 if not thorough else 3),
                    witnesses=("emitted",), split=2, path_timeout_s=300))
+    # the pairs of the REPAIR fills of load_application (chips missing a
+    # fill, cores found not loaded): C09's harness, whose obligations include
+    # "every fill's core-select packets select exactly the cores then
+    # missing", run here for the shapes whose second fill differs from the
+    # first
+    from harness import c09
+    us.append(Unit("through load_application: repair fills (C09's harness)",
+                   c09.h_load, dict(
+                       shapes=("2 chips 5 cores 16 17",
+                               "3 chips 6 cores 2 blocks"),
+                       bufs=(16,), sizes=(("+4", "x2"),), tries=(1,),
+                       modes=c09.ALL_MODES[2:], nn_starts=(125,),
+                       pres=(False,)), split=5,
+                   witnesses=("returned", "retried"), path_timeout_s=120))
     for (st, fb, order) in whole:
         us.append(Unit("whole %s free=%d order=%d" % (st, fb, order), h_whole,
                        dict(structure=st, free_bits=fb, order=order),
